@@ -14,7 +14,22 @@ fn key_bytes(k: u8) -> Vec<u8> {
 impl<'a> Interp<'a> {
     fn setup(&mut self) -> Check {
         let prop = self.focus().to_string();
-        if let Err(e) = self.start_node() {
+        if self.cfg.encryption == 3 {
+            // encryption enabled with an unusable key from the very first start: the server must refuse to start
+            // (if it starts nevertheless, the case goes on and is held to everything encryption promises)
+            match self.start_node() {
+                Err(_) => {
+                    let _ = take_panics();
+                    self.out.label("unusable-key-first-start-refused");
+                    self.out.nontrivial = true;
+                    self.abort = true;
+                    return Ok(());
+                }
+                Ok(()) => {
+                    self.out.label("server-started-with-unusable-key");
+                }
+            }
+        } else if let Err(e) = self.start_node() {
             return Err(self.fail(&prop, "start-failed", format!("first start on an empty directory failed: {e:?}")));
         }
         self.connect()?;
@@ -143,6 +158,9 @@ impl<'a> Interp<'a> {
             server::verif::arm_chaos(name, server::verif::ChaosAction::DelayMs(*ms), 1);
         }
         self.setup()?;
+        if self.abort {
+            return Ok(());
+        }
         let ops = self.case.ops.clone();
         for (i, op) in ops.iter().enumerate() {
             self.step = i;
